@@ -12,6 +12,13 @@ from typing import Dict, Set, Tuple
 import data_algebra
 import data_algebra.data_model
 import data_algebra.near_sql
+
+# verification hooks: active only under DATA_ALGEBRA_VERIF=1 (see data_algebra/_verif_trace.py)
+import os as _os
+
+_VERIF_TRACE = None
+if _os.environ.get("DATA_ALGEBRA_VERIF") == "1":
+    import data_algebra._verif_trace as _VERIF_TRACE
 import data_algebra.expr_rep
 import data_algebra.util
 import data_algebra.data_ops_types
@@ -1151,6 +1158,10 @@ class SQLModel:
                 set(our_non_trivial_terms).intersection(sub_needs),
                 set(sub_non_trivial_terms).intersection(our_needs),
             )
+            if _VERIF_TRACE is not None:
+                _VERIF_TRACE.merge_event(
+                    self, subsql, terms, declared_term_dependencies, len(contention) == 0
+                )
             if len(contention) == 0:
                 # merge our stuff into subsql
                 assert subsql.terms is not None  # type hint
